@@ -101,7 +101,7 @@ def run_impl(case):
     style = rnd.choice(["random", "starve", "lockhold", "sticky"])
     sparse_req = n >= 7 and rnd2.random() < .5
     stats = {"cycles": 0, "handovers": 0, "busy_with_waiter": 0, "n": n, "lock_bus": int("lock" in bfeat), style: 1,
-             "free_with_waiter": 0, "elaborated_before_add": pre,
+             "free_with_waiter": 0, "wait_checks": 0, "waited_to_the_bound": 0, "elaborated_before_add": pre,
              "refused_initiators_kept_requesting": len(ghosts), "sparse_requests": int(sparse_req), "features_spelled_" + spell: 1}
     bus = arb.bus
 
@@ -110,6 +110,7 @@ def run_impl(case):
 
     async def tb(ctx):
         owner_prev, busy_prev, req_prev = None, None, None
+        wait_free = [0] * n          # per initiator: free-bus cycles since it began to request without owning the bus
         hold = [0] * n
         cur = [None] * n
         pending = []
@@ -225,6 +226,17 @@ def run_impl(case):
                     obs.append(f"{pb} | {po} | {owner if pbusy else '-'}")
                 else:
                     obs.append(f"{'-' if pbusy else owner}")
+            # C09, finite form (Lean: ArbF.served_within_n_minus_one): an initiator that has been requesting in every
+            # cycle of [t0, t] without owning the bus in any of them has seen at most N-2 free-bus cycles in [t0, t)
+            for j in range(n):
+                if reqs[j][0] and j != owner:
+                    if wait_free[j] >= n - 1:
+                        fails.append(("C09", f"cycle {t}: initiator {j} has requested through {wait_free[j]} releases of the bus (N-1 = {n - 1}) without being served", t))
+                    stats["wait_checks"] += 1
+                    stats["waited_to_the_bound"] += (wait_free[j] == n - 2 and n >= 3)      # the bound N-2 is reached
+                    wait_free[j] += 0 if busy else 1
+                else:
+                    wait_free[j] = 0
             others = any(reqs[p][0] for p in range(n) if p != owner)
             if busy and others: stats["busy_with_waiter"] += 1
             if not busy and others: stats["free_with_waiter"] += 1
